@@ -525,7 +525,15 @@ func init() {
 			// the callback deletes and sets
 			setY := x.P.FnObj("pkg/document/json.(*Object).SetYSON")
 			del := x.P.FnObj("pkg/document/json.(*Object).Delete")
-			for _, cl := range prog.Closures(fn) {
+			// the updater: the function value handed to Update — a closure of Restore, or one built by a helper
+			var updaters []*ssa.Function
+			for _, c := range updates {
+				updaters = append(updaters, closureArgs(c)...)
+			}
+			if len(updaters) == 0 {
+				updaters = prog.Closures(fn)
+			}
+			for _, cl := range updaters {
 				if setY == nil || del == nil {
 					x.C.Unresolved(x.id(), "json.Object.SetYSON / Delete")
 					break
